@@ -198,3 +198,71 @@ def specChecked [BEq α] (le : α → α → Bool) (desc : Bool) (inputs : List 
   else "ok"
 
 end Mk.Merge
+
+namespace Mk.Merge
+variable {α β : Type}
+
+/-! ## The tie rule made declarative: stable sort of the concatenated inputs
+
+Both loops take, among the inputs whose current row scores highest, the one with the
+*smallest index* (`max_score < score` replaces the best only on a strict improvement;
+`np.argmax`/`np.argmin` return the first extreme index).  Declaratively: rows of equal
+score come out in the order (input index, position in the input), i.e. the result is the
+*stable* sort by decreasing score of the inputs written one after the other. -/
+
+/-- insert `x` into a non-increasing list: behind every row that scores strictly higher,
+in front of the first row that does not (so `x` precedes the rows it ties with) -/
+def insDesc (le : α → α → Bool) (x : α) : List α → List α
+  | [] => [x]
+  | y :: ys => if !(le y x) then y :: insDesc le x ys else x :: y :: ys
+
+/-- stable sort by decreasing score (insertion sort from the right: an earlier row is
+inserted later and therefore lands in front of the rows it ties with) -/
+def stableSortDesc (le : α → α → Bool) (xs : List α) : List α := xs.foldr (insDesc le) []
+
+/-- stable sort in the declared direction (`desc = false`: by increasing score) -/
+def stableSortAs (le : α → α → Bool) (desc : Bool) (xs : List α) : List α :=
+  if desc then stableSortDesc le xs else stableSortDesc (fun a b => le b a) xs
+
+/-! ## `get_row_iterator(columns=…)` / `read(columns=…)` / `get_chunked_data_iterator(…, columns=…)` -/
+
+/-- with a column selection every reader is asked for the selected columns only
+(`reader.get_chunked_data_iterator(chunk_size, columns=columns)`), so each row is projected
+(`proj`) *before* it is compared, checked and yielded; the priority value is then looked up
+in the projected row.  `hasKey = false`: the priority column was not selected, the lookup
+raises (`KeyError`, `ValueError` for record rows) after the first rows were fetched and
+before anything is yielded — `none`, as for an input without rows.
+src: mokapot/streaming.py:211-215, 251-266 -/
+def kmergeCheckedCols (leβ : β → β → Bool) (hasKey : Bool) (proj : α → β) (desc : Bool)
+    (c : Nat) (files : List (List α)) : Option (List β × Bool) :=
+  if hasKey then kmergeCheckedFiles leβ desc c (files.map (List.map proj)) else none
+
+end Mk.Merge
+
+namespace Mk.Merge
+variable {α : Type}
+
+/-! ## What the entry points hand to their consumer -/
+
+/-- the `while not finished` loop of `get_chunked_data_iterator(chunk_size = c)`: every yielded
+row is appended to `rows` (`acc`); a frame is handed on as soon as it holds `c` rows; at the
+regular end a non-empty rest is handed on as the last frame; when the row iterator raises
+`ValueError` (`err`) the exception propagates at once and the collected rest is lost.
+src: mokapot/streaming.py:300-316 -/
+def kmFramesGo (c : Nat) (err : Bool) : List α → List α → List (List α)
+  | acc, [] => if !err && !acc.isEmpty then [acc] else []
+  | acc, x :: xs =>
+    if (acc ++ [x]).length == c then (acc ++ [x]) :: kmFramesGo c err [] xs
+    else kmFramesGo c err (acc ++ [x]) xs
+
+/-- `get_chunked_data_iterator(c)` / `merge_readers` (`c = 1`) on the result `(rows, raised?)`
+of the row iterator: the frames the consumer receives, and whether it then sees the `ValueError`.
+src: mokapot/streaming.py:300-316, 331-345 -/
+def kmDeliverFrames (c : Nat) (r : List α × Bool) : List (List α) × Bool :=
+  (kmFramesGo c r.2 [] r.1, r.2)
+
+/-- `read()`: all rows in one table, or nothing but the `ValueError`.
+src: mokapot/streaming.py:318-323 -/
+def kmDeliverRead (r : List α × Bool) : List α × Bool := if r.2 then ([], true) else (r.1, false)
+
+end Mk.Merge
